@@ -27,7 +27,7 @@ H_ATTRS = {
 }
 
 
-def model_desc(sim_type):
+def model_desc(sim_type, any_inputs=False):
     if sim_type == "time-based":
         m = dict(T_ATTRS)
     elif sim_type == "event-based":
@@ -35,6 +35,8 @@ def model_desc(sim_type):
     else:
         m = dict(H_ATTRS)
     m.update(public=True, params=[])
+    if any_inputs:
+        m["any_inputs"] = True
     return m
 
 
@@ -58,7 +60,7 @@ class StubSim(mosaik_api_v3.Simulator):
         self.sid = sid
         self.spec = spec
         self.meta["type"] = spec["type"]
-        self.meta["models"] = {"M": model_desc(spec["type"])}
+        self.meta["models"] = {"M": model_desc(spec["type"], spec.get("any_inputs", False))}
         if spec.get("set_events"):
             self.meta["set_events"] = True
         CTX.stubs[sid] = self
@@ -200,3 +202,27 @@ def act_tolerant(spec):
 def _exc_name(e):
     rt = getattr(e, "remote_type", None)
     return rt if rt is not None else type(e).__name__
+
+
+class DescSim(mosaik_api_v3.Simulator):
+    """Returns exactly the model description / type / version it is told to (C12, C15)."""
+
+    def __init__(self):
+        super().__init__({"models": {}})
+
+    def init(self, sid, time_resolution=1.0, desc=None, type=None, api_version=None):
+        meta = {"models": {"M": dict(desc, public=True, params=[])}}
+        if type is not None:
+            meta["type"] = type
+        meta["api_version"] = api_version or "3.0"
+        self.meta = meta
+        return meta
+
+    def create(self, num, model, **kw):
+        return [{"eid": "e", "type": model}]
+
+    def step(self, time, inputs, max_advance):
+        return None
+
+    def get_data(self, outputs):
+        return {}
